@@ -35,7 +35,9 @@ REPO = os.environ.get('RIMU_REPO', '/repo')
 LEAN = os.path.join(VERIF, 'lean')
 GENERATED = os.path.join(LEAN, 'RimuModel', 'Generated')
 CACHE = os.path.join(VERIF, '.cache')
-EVIDENCE = os.path.join(VERIF, 'evidence')
+# evidence/ is committed and describes the unchanged tree only: runs on a deliberately changed tree (tools/seeded_eval.sh) set
+# VERIF_EVIDENCE_DIR to a scratch directory so that they never overwrite it
+EVIDENCE = os.environ.get('VERIF_EVIDENCE_DIR') or os.path.join(VERIF, 'evidence')
 REPLAYS = os.path.join(VERIF, 'replays')
 PYTHON = '/venv/bin/python'
 ALLOWED_AXIOMS = {'propext', 'Classical.choice', 'Quot.sound'}
@@ -359,6 +361,10 @@ def main():
             'leanchecker': info.get('leanchecker', 'not-run (thorough tier only)'),
             'evaluations': result.evaluations,
             'distinct_nontrivial': result.distinct_nontrivial,
+            'distinct_nontrivial_units': result.distinct_nontrivial_units,
+            'counting': 'evaluations = cases run (a case is a session of one or more render calls, or one command line); '
+                        'distinct_nontrivial = distinct cases with at least one non-trivial step not seen in an earlier case; '
+                        'distinct_nontrivial_units = distinct non-trivial steps (source, mode) over all cases',
             'rule': prop.rule,
             'samples': result.samples[:5],
             'correspondence': {
